@@ -950,9 +950,9 @@ func renameField(d *sDoc, old, nw string) {
 
 type c12Stats struct {
 	programs, containers, accessors, jobs, paths, obligations, discharged, queries int
-	solverS                                                                       float64
-	samples                                                                       []interface{}
-	disagreements                                                                 int
+	solverS                                                                        float64
+	samples                                                                        []interface{}
+	disagreements                                                                  int
 }
 
 // validateSchema generates from one schema and checks the output symbolically. It returns violation lines.
